@@ -4,7 +4,7 @@ from __future__ import annotations
 
 from typing import Callable, Dict, Optional
 
-from .rules import (alias, align, anchored, cmp, construct, dispatch, flow, keys, ops, opt, pyx, reg, repres, sig,
+from .rules import (alias, align, anchored, cmp, construct, dispatch, divinv, flow, generic, keys, ops, opt, pyx, reg, repres, sig,
                     small, structure, wrappers)
 
 def _cached(key, fn):
@@ -42,6 +42,13 @@ RULES: Dict[str, Callable] = {
     "R-CARRIER": _cached("R-CARRIER", anchored.run_carrier),
     "R-PRODAXES": _cached("R-PRODAXES", anchored.run_prodaxes),
     "R-RANKSEL": _cached("R-RANKSEL", anchored.run_ranksel),
+    "R-DIVINV": _cached("R-DIVINV", divinv.run),
+    "R-MEMORDER": _cached("R-MEMORDER", generic.run_memorder),
+    "R-BISECT": _cached("R-BISECT", generic.run_bisect),
+    "R-SIGPOS": _cached("R-SIGPOS", generic.run_sigpos),
+    "R-NAMEPATHS": _cached("R-NAMEPATHS", generic.run_namepaths),
+    "R-COLPERM": _cached("R-COLPERM", generic.run_colperm),
+    "R-DEFAULTS": _cached("R-DEFAULTS", generic.run_defaults),
     "R-REGISTRAR": _cached("R-REGISTRAR", anchored.run_registrar),
     "R-OUTER": _cached("R-OUTER", anchored.run_outer),
     "R-NONE": _cached("R-NONE", anchored.run_none),
@@ -137,6 +144,8 @@ PLAN: Dict[str, dict] = {
             G("R-POWER", "scalar power = one multiplied by the base exactly n times"),
             G("R-VALUES", "operands that are strided views are read in the right element order"),
             G("R-CLEAN", "the clean-up after each operation drops exactly the all-zero non-constant terms", only=in_funcs("remove_redundant_coefficients")),
+            S("R-BISECT", "no bisection on a sequence that was sorted with a key function (name / exponent look-ups are by equality)"),
+            S("R-NAMEPATHS", "all return paths of a wrapper keep the operands' names (no names-dropping fast path)"),
         ],
         "explanation": "Structural clauses of exact ring arithmetic: (1) add/subtract/negative/positive hand the "
                        "coefficient storage to the numpy function they are registered for, operands in parameter order; "
@@ -179,6 +188,8 @@ PLAN: Dict[str, dict] = {
             G("R-CAST", "every coefficient array is cast to the coefficient dtype before the raw write"),
             G("R-VALUES", "the raw structured view of a strided / Fortran-ordered polynomial holds the same elements as its coefficients"),
             G("R-TERMZIP", "keys, exponent rows and coefficients of one polynomial are paired term by term in one order"),
+            S("R-MEMORDER", "flattening / reshaping keeps numpy's logical element order (no literal memory-dependent order)"),
+            S("R-COLPERM", "re-ordered names and their exponent columns are permuted together"),
         ],
         "explanation": "Construction goes through validated constructors: every normal return of postprocess_attributes passed the "
                        "2-d / length / name-count / duplicate-name / duplicate-exponent checks; encode/decode of storage keys use "
@@ -195,6 +206,8 @@ PLAN: Dict[str, dict] = {
             G("R-NAMES", "rebuilt operands keep their names", only=in_files("numpoly/align.py")),
             G("R-OPT-TABLE", "the options the alignment reads (default_varname, retain_*) cannot be left half-set by a rejected or interrupted option call"),
             G("R-CAST", "aligned operands are rebuilt through polynomial_from_attributes: cast before the raw write, raw writer only for dtypes it implements"),
+            S("R-BISECT", "no bisection on a sequence that was sorted with a key function (name / exponent look-ups are by equality)"),
+            S("R-COLPERM", "re-ordered names and their exponent columns are permuted together"),
         ],
         "explanation": "Each align_* function returns tuple(list of per-argument images) in argument order where slot i is only "
                        "replaced by a value computed from argument i; the common shape / names / exponents are computed over all "
@@ -210,14 +223,25 @@ PLAN: Dict[str, dict] = {
             G("R-ALIGNFN", "dividend and divisor are broadcast against each other with numpy's rules", only=msg("align_shape: broadcast")),
             S("R-NAMES", "the masked quotient / subtrahend terms built through where() keep the operands' names"),
             G("R-OPT-PINNED", "alignment keeps one layout under every option setting (operands with different name sets)", only=in_files("numpoly/align.py")),
+            G("R-DIVINV", "loop invariant dividend == quotient*divisor + remainder: base, inductive step (loop state opaque, ring laws), returned pair, exact-zero store; the step cancels the dividend term it was computed from"),
         ],
         "explanation": "Third sentence in full (operator routing with operand order, poly_divide/poly_remainder = components 0/1 of "
                        "poly_divmod); inside the loop get_division_candidate only ever receives operands that came out of one "
                        "align_polynomials call (on entry and after every step); dividend.exponents - divisor.exponents is only formed "
-                       "for pairs get_division_candidate selected past its 'exponent1 < exponent2' skip.",
-        "not_decided": "termination and the identity dividend = q*divisor + r: both need a ranking argument over runtime "
-                       "coefficient values (the pinned code does loop forever for some multivariate divisors; recorded in DESIGN.md, "
-                       "not decidable by this family)",
+                       "for pairs get_division_candidate selected past its 'exponent1 < exponent2' skip. The identity "
+                       "dividend == q*divisor + r is decided as *partial correctness* by a loop invariant computed from the source "
+                       "(R-DIVINV): with the loop state (quotient, running dividend, divisor) opaque, one iteration changes "
+                       "quotient*divisor + remainder by the polynomial 0 under the commutative-ring laws (C01), where(m,a,0) = m*a for a "
+                       "0/1 mask and 'alignment is representation only' (C04); the state before the loop satisfies it, the function "
+                       "returns that state in the order (quotient, remainder), the 0-d branch delegates component-wise with operands in "
+                       "order, and the only in-place write is the exact-zero store into the key of the cancelled term under the step's "
+                       "mask. The step cancels the term it was computed from: candidate = dividend coefficient[idx1] / divisor "
+                       "coefficient[idx2] of the returned indices, include implies that dividend coefficient is non-zero, and the "
+                       "monomial is indeterminants ** (dividend row idx1 - divisor row idx2).",
+        "not_decided": "termination (needs a ranking argument over runtime coefficient values; the pinned code does loop forever "
+                       "for some multivariate divisors; recorded in DESIGN.md), floating-point rounding of the identity, that q is "
+                       "the true quotient for constant divisors and r has lower degree (follow from termination + cancellation, "
+                       "not decided)",
     },
     "C06": {
         "uses": [
@@ -230,6 +254,8 @@ PLAN: Dict[str, dict] = {
             G("R-GETITEM", "an indeterminate obtained by indexing is a single monomial (elements are not built with retain_coefficients=True)", only=msg("retain_coefficients")),
             S("R-ALIGN", "derivative re-aligns with the reference after each variable"),
             G("R-OPT-PINNED", "alignment keeps one layout under every option setting (operands with different name sets)", only=in_files("numpoly/align.py")),
+            S("R-BISECT", "no bisection on a sequence that was sorted with a key function (name / exponent look-ups are by equality)"),
+            S("R-COLPERM", "re-ordered names and their exponent columns are permuted together"),
         ],
         "explanation": "derivative: the decrement of the uint32 exponent column is applied only to rows filtered by 'column > 0' "
                        "(so it holds under every retain_* setting); the differentiated column index is looked up in the names of the "
@@ -263,6 +289,8 @@ PLAN: Dict[str, dict] = {
             G("R-REGISTRAR", "the registration decorators enter every target into every table"),
             S("R-FWD", "registered wrappers forward the value/shape parameters they share with numpy"),
             G("R-NAMES", "functions that also exist as ndarray methods/attributes (transpose/.T, reshape, ravel, ...) keep the names like the method spelling does", only=HAS_METHOD_SPELLING),
+            G("R-SIGPOS", "positional calls through numpy bind to the same parameters as the keyword / numpoly spelling"),
+            G("R-NAMEPATHS", "every spelling returns the same names and dtype whichever return path the values select (no names-dropping fast path)"),
         ],
         "explanation": "Positive half by identity of callee: every reachable registry entry T->F satisfies numpoly.<name(T)> is F, "
                        "ufuncs only reachable through the ufunc table; REDUCE/ACCUMULATE mappings agree with numpy's definition of "
@@ -285,6 +313,10 @@ PLAN: Dict[str, dict] = {
             S("R-NONE", "shape / axis / index arguments are never mistaken for 'omitted' when they are 0 or ()"),
             G("R-OPT-PINNED", "alignment keeps one layout under every option setting (operands with different name sets)", only=in_files("numpoly/align.py")),
             S("R-DTYPE", "joined / selected results take a dtype depending on all operands", only=COMBINING),
+            S("R-MEMORDER", "flattening / reshaping keeps numpy's logical element order (no literal memory-dependent order)"),
+            S("R-SIGPOS", "positional arguments bind as in numpy's signature"),
+            S("R-NAMEPATHS", "all return paths of a wrapper keep the operands' names (no names-dropping fast path)"),
+            S("R-DEFAULTS", "shared value/shape parameters have numpy's defaults (a call without them does what numpy does)"),
         ],
         "explanation": "Each shape function hands the raw structured storage to the numpy function it is registered for, with all "
                        "shape/axis/index parameters used and not cross-wired, every call signature-valid for the installed numpy, and "
@@ -310,6 +342,9 @@ PLAN: Dict[str, dict] = {
             G("R-OUTER", "outer flattens both operands like numpy.outer"),
             S("R-NAMES", "matmul / the joiners re-wrap every operand's storage with that operand's own names"),
             G("R-OPS", "the reduction methods (sum/cumsum/mean/prod) forward every parameter to the function spelling", only=in_funcs("sum", "cumsum", "mean", "prod", "__matmul__", "__rmatmul__")),
+            S("R-MEMORDER", "flattening / reshaping keeps numpy's logical element order (no literal memory-dependent order)"),
+            S("R-SIGPOS", "positional arguments bind as in numpy's signature"),
+            S("R-DEFAULTS", "shared value/shape parameters have numpy's defaults (a call without them does what numpy does)"),
         ],
         "explanation": "sum/cumsum/mean dispatch their namesake per aligned key with axis/dtype/keepdims forwarded; diff aligns a, "
                        "prepend and append in one call and writes every key; every numpy call in the call graph of the reductions "
@@ -329,6 +364,10 @@ PLAN: Dict[str, dict] = {
             G("R-LEAD", "argmax/argmin/amax/amin rank float coefficients exactly (the proxy holds ranks, not truncated values)", only=in_funcs("sortable_proxy")),
             G("R-PRODAXES", "prod accepts the negative axes numpy accepts (the axis is normalised before it is used as a count)", only=msg("negative axis")),
             G("R-RANKSEL", "amax/amin along an axis pair every reduced rank with its own element (inverse of the proxy permutation)"),
+            S("R-MEMORDER", "flattening / reshaping keeps numpy's logical element order (no literal memory-dependent order)"),
+            S("R-SIGPOS", "positional arguments bind as in numpy's signature"),
+            S("R-NAMEPATHS", "all return paths of a wrapper keep the operands' names (no names-dropping fast path)"),
+            S("R-DEFAULTS", "shared value/shape parameters have numpy's defaults (a call without them does what numpy does)"),
         ],
         "explanation": "Last sentence in full: in true_divide/floor_divide/remainder/divmod every path to the numeric ufunc or to a "
                        "normal return passed divisor.isconstant() and the other edge raises FeatureNotSupported. Every registered "
@@ -345,6 +384,7 @@ PLAN: Dict[str, dict] = {
             G("R-DTYPE", "requested dtype reaches every constructed polynomial; combined results depend on all operand dtypes"),
             G("R-CLEAN", "a result whose terms were all filtered away (or that has no element at all) keeps the shape and dtype of its inputs", only=msg("zero fall-back", "clean_attributes: dtype")),
             G("R-POWER", "the constant one that seeds a power carries the base's dtype", only=msg("dtype of the initial one")),
+            S("R-MEMORDER", "flattening / reshaping keeps numpy's logical element order (no literal memory-dependent order)"),
         ],
         "explanation": "The C writers' dtype switch is read from the .pyx (cannot be rebuilt here): arms, element/pointer types, "
                        "default arm; polynomial_from_attributes casts every coefficient to the buffer dtype and uses the raw writer "
@@ -363,6 +403,8 @@ PLAN: Dict[str, dict] = {
             S("R-SIG", "loadtxt reaches a signature-valid reshape"),
             G("R-NAMES", "loadtxt restores the shape through reshape, which must keep the names", only=in_files("array_function/reshape.py", "array_function/loadtxt.py", "array_function/savetxt.py")),
             G("R-OPT-TABLE", "unpickling and loadtxt rebuild under the options in force (retain_names): an option leaked by an earlier block changes the object that comes back"),
+            S("R-MEMORDER", "flattening / reshaping keeps numpy's logical element order (no literal memory-dependent order)"),
+            S("R-DEFAULTS", "shared value/shape parameters have numpy's defaults (a call without them does what numpy does)"),
         ],
         "explanation": "__reduce__ returns polynomial_from_attributes with exponents/coefficients/names/dtype/allocation bound to the "
                        "right parameters; __array_finalize__ copies exactly the attribute set __new__ assigns; HEADER_REGEX is built "
@@ -391,6 +433,8 @@ PLAN: Dict[str, dict] = {
             G("R-OPT-TABLE", "an option setting is in force exactly inside its with-block: no leak on exceptions, rejected calls or library-internal set_options"),
             G("R-GRAD", "gradient/hessian differentiate by name (poly.names), not by option-dependent indeterminate objects"),
             G("R-ALIGN", "operands are combined by position only after alignment: equal keys do not imply equal names once retain_names=False drops unused names"),
+            S("R-BISECT", "no bisection on a sequence that was sorted with a key function (name / exponent look-ups are by equality)"),
+            S("R-COLPERM", "re-ordered names and their exponent columns are permuted together"),
         ],
         "explanation": "Who-may-read layering of the 12 option keys over all 33 read sites; retain_* only replace a None argument; "
                        "graded=/reverse= receive *_graded/*_reverse of the right family or the function's own parameters; "
@@ -446,6 +490,9 @@ PLAN: Dict[str, dict] = {
             S("R-SIG", "amax/amin reach a signature-valid reshape"),
             G("R-STABLE", "the monomial order behind the leading-term queries is platform independent"),
             G("R-TERMZIP", "decompose/todict pair each key with its own exponent row and coefficient", only=in_files("poly_function/", "baseclass.py")),
+            S("R-BISECT", "no bisection on a sequence that was sorted with a key function (name / exponent look-ups are by equality)"),
+            S("R-BISECT", "no bisection on a sequence that was sorted with a key function (name / exponent look-ups are by equality)"),
+            S("R-COLPERM", "re-ordered names and their exponent columns are permuted together"),
         ],
         "explanation": "lead_exponent and lead_coefficient are the same ascending glexsort(graded, reverse) walk overwriting where "
                        "the coefficient is non-zero from a zero-initialised result; tonumpy raises FeatureNotSupported unless "
@@ -462,6 +509,8 @@ PLAN: Dict[str, dict] = {
             G("R-UNSIGNED", "uint32 exponents are never scaled by a run-time value without widening (silent wrap at 2**32)", only=msg("wraps silently", "numpy.uint32 exponent")),
             G("R-HEADER", "header delimiters are outside the key alphabet; decoding is strict", only=msg("delimiter", "errors=", "HEADER_TEMPLATE")),
             G("R-ALIAS", "the constructor does not shift a caller's exponent array in place", only=lambda f: f.function.endswith("__new__") or "numpoly/construct/" in f.relpath),
+            S("R-BISECT", "no bisection on a sequence that was sorted with a key function (name / exponent look-ups are by equality)"),
+            S("R-DEFAULTS", "shared value/shape parameters have numpy's defaults (a call without them does what numpy does)"),
         ],
         "explanation": "Keys are built as exponents + KEY_OFFSET and decoded as uint32 view - KEY_OFFSET at every site; the constant "
                        "exceeds ':' and every header delimiter; the text reader decodes strictly; the C product-key encoder's "
